@@ -263,7 +263,7 @@ def run(rep, ctx):
     rep.rule("R18.10", "no function keeps results in module-level state or functools caches (answers do not depend on what the process analysed before)")
     with rep.guard("R18.10"):
         from .. import symrules as _SRms
-        _SRms.module_state(rep, ctx.model, "R18.10")
+        _SRms.module_state(rep, ctx.model, "R18.10", _SRms.GEOMETRY_SIDE)
     rep.floor("R18.1", 8)
     rep.floor("R18.2", 3)
     rep.floor("R18.3", 8)
